@@ -8,8 +8,10 @@ Survivors are candidates only: many are equivalent mutants, unreachable through 
 what the property states; they are reviewed by hand (results: sensitivity/<ID>.jsonl)."""
 import hashlib, json, os, random, re, shutil, subprocess, sys, time
 
-pid, n = sys.argv[1], int(sys.argv[2])
-seed = int(sys.argv[3]) if len(sys.argv) > 3 else 1
+args = [a for a in sys.argv[1:] if not a.startswith("--")]
+MECH = "--mech" in sys.argv  # only inside the functions / files the property's mechanism anchors name
+pid, n = args[0], int(args[1])
+seed = int(args[2]) if len(args) > 2 else 1
 rnd = random.Random(seed * 1000003 + int(pid[1:]))
 props = {json.loads(l)["id"]: json.loads(l) for l in open("/verif/properties.jsonl")}
 anchors = props[pid]["anchors"]["files"]
@@ -45,10 +47,36 @@ for a in anchors:
         continue
     if os.path.isfile(p) and p.endswith(".go") and not p.endswith("_test.go"):
         files.append(a)
+mech_words, mech_files = set(), set()
+for m in props[pid]["anchors"].get("mechanism", []):
+    for w in re.findall(r"[A-Za-z_][A-Za-z0-9_]*", m["where"]):
+        if len(w) >= 4:
+            mech_words.add(w)
+    for w in re.findall(r"[A-Za-z0-9_/<>]+\.go", m["where"]):
+        mech_files.add(os.path.basename(w))
+FUNC = re.compile(r"^func (?:\([^)]*\) )?([A-Za-z_][A-Za-z0-9_]*)\(")
 sites = []
 for a in files:
     lines = open(os.path.join(wt, a)).read().split("\n")
+    allowed = None
+    if MECH:
+        allowed = set()
+        cur, hit_any = None, False
+        for i, ln in enumerate(lines):
+            m = FUNC.match(ln)
+            if m:
+                cur = m.group(1)
+            if cur in mech_words:
+                allowed.add(i)
+                hit_any = True
+            if ln.startswith("}"):
+                cur = None
+        if not hit_any:
+            # no named function of this file: the whole file counts if the mechanism names the file
+            allowed = set(range(len(lines))) if os.path.basename(a) in mech_files else set()
     for i, ln in enumerate(lines):
+        if allowed is not None and i not in allowed:
+            continue
         if SKIP.search(ln):
             continue
         for k, (rx, rep) in enumerate(OPS):
@@ -56,7 +84,7 @@ for a in files:
                 sites.append((a, i, m.start(), m.end(), rep))
 rnd.shuffle(sites)
 os.makedirs("/verif/sensitivity", exist_ok=True)
-out = open("/verif/sensitivity/%s.jsonl" % pid, "a")
+out = open("/verif/sensitivity/%s%s.jsonl" % (pid, "-mech" if MECH else ""), "a")
 done = 0
 try:
     for (a, i, s, e, rep) in sites:
